@@ -1,0 +1,23 @@
+//go:build verif
+
+package gabi
+
+// Export-only accessors for the verification harness in /verif (build tag "verif").
+// Nothing here changes behaviour; without the tag this file is not compiled.
+
+import (
+	"github.com/privacybydesign/gabi/big"
+	"github.com/privacybydesign/gabi/internal/common"
+)
+
+func VerifHashCommit(values []*big.Int, issig bool) *big.Int { return common.HashCommit(values, issig) }
+
+func VerifGetHashNumber(a, b *big.Int, index int, bitlen uint) *big.Int {
+	return common.GetHashNumber(a, b, index, bitlen)
+}
+
+func VerifIntHashSha256(input []byte) *big.Int { return common.IntHashSha256(input) }
+
+func VerifCreateChallenge(context, nonce *big.Int, contributions []*big.Int, issig bool) *big.Int {
+	return createChallenge(context, nonce, contributions, issig)
+}
